@@ -871,7 +871,7 @@ func genHistory(r *hx.Rand, ln int) []Op {
 	}
 	push(Op{Op: "New", I: 0})
 	push(Op{Op: "New", I: 1})
-	keys := []string{"a", "b"}
+	keys := []string{"a", "b", "c"}
 	set := func() []int {
 		var s []int
 		for i, v := range st.x {
@@ -1067,6 +1067,45 @@ func modeProbe() {
 	selfAssign("self-assign-msgmap", "Node(mm={'a': Node(v=1)})", "m.mm = m.mm")
 	selfAssign("failed-list-assign-keeps-old", "Node(ri=[1,2,3])", "m.ri = [7, 'x']")
 	selfAssign("failed-map-assign-keeps-old", "Node(mi={'a': 1})", "m.mi = {'b': 'x'}")
+	// lossless bulk stores: every value written is read back
+	probe("lossless-map-many-keys", func() (string, string, bool) {
+		m := mk("Node(mi={'k0': 100})")
+		e := with(env, "m", m)
+		for i := 1; i < 8; i++ {
+			if out, msg := exec(fmt.Sprintf("m.mi['k%d'] = %d", i, 100+i), e); out != "ok" {
+				return out, msg, false
+			}
+		}
+		d := dump(m, 0)
+		if len(d.MI) != 8 {
+			return "mismatch", fmt.Sprintf("wrote 8 keys, read back %d: %v", len(d.MI), d.MI), true
+		}
+		for i, kv := range d.MI {
+			if kv[0] != hex.EncodeToString([]byte(fmt.Sprintf("k%d", i))) || kv[1] != fmt.Sprint(100+i) {
+				return "mismatch", fmt.Sprintf("entry %d reads back %v", i, kv), true
+			}
+		}
+		return "ok", "", false
+	})
+	probe("lossless-list-many-appends", func() (string, string, bool) {
+		m := mk("Node(ri=[0])")
+		e := with(env, "m", m)
+		for i := 1; i < 12; i++ {
+			if out, msg := exec(fmt.Sprintf("m.ri.append(%d)", i), e); out != "ok" {
+				return out, msg, false
+			}
+		}
+		d := dump(m, 0)
+		if len(d.RI) != 12 {
+			return "mismatch", fmt.Sprintf("appended to 12 elements, read back %d", len(d.RI)), true
+		}
+		for i, x := range d.RI {
+			if x != fmt.Sprint(i) {
+				return "mismatch", fmt.Sprintf("element %d reads back %s", i, x), true
+			}
+		}
+		return "ok", "", false
+	})
 	probe("iter-append", func() (string, string, bool) {
 		m := mk("Node(ri=[1])")
 		out, msg := exec("def f():\n  n = 0\n  for e in m.ri:\n    m.ri.append(7)\n    n += 1\n    if n > 5:\n      break\nf()", with(env, "m", m))
